@@ -289,7 +289,8 @@ def get_reinforce_baseline(name, **kw):
     exponential baseline and the greedy rollout
     """
     if name == "warmup":
-        inner_baseline = kw.get("baseline", "rollout")
+        # "rollout" is already a warm-up around the greedy rollout: wrap the plain rollout baseline
+        inner_baseline = kw.pop("baseline", "rollout_only")
         if not isinstance(inner_baseline, REINFORCEBaseline):
             inner_baseline = get_reinforce_baseline(inner_baseline, **kw)
         return WarmupBaseline(inner_baseline, **kw)
